@@ -87,3 +87,10 @@ void fx6_move_swapped(uint8_t *dest, const uint8_t *src, uint32_t len) {     /* 
     const uint8_t *sp = src + 1;
     while (len != 0) { *dp++ = *sp++; len--; }
 }
+/* announced length table next to a message table */
+static const char *fx6_msgs[] = {"null ptr", "length is zero", "overlap undefined", "empty string", "not found", "no difference", "x", "yz"};
+static const int fx6_lens_ok[] = {sizeof "null ptr", sizeof "length is zero", sizeof "overlap undefined", sizeof "empty string", sizeof "not found", sizeof "no difference", sizeof "x", sizeof "yz"};
+static const int fx6_lens_stale[] = {sizeof "null ptr", sizeof "length is zero", sizeof "overlap", sizeof "empty string", sizeof "not found", sizeof "no difference", sizeof "x", sizeof "yz"};
+const char *fx6_msg(int e) { return e >= 0 && e < 8 ? fx6_msgs[e] : ""; }
+size_t fx6_len_ok(int e) { if (e >= 0 && e < 8) return fx6_lens_ok[e] - 1; return 0; }
+size_t fx6_len_stale(int e) { if (e >= 0 && e < 8) return fx6_lens_stale[e] - 1; return 0; }
